@@ -390,6 +390,32 @@ func evalC10(c c10Case, o *Obs) error {
 		}
 	}
 
+	// ---- no filter loaded: nothing is relevant, nothing is reported, nothing panics ----
+	if c.Tweak%4 == 0 {
+		o.Class("C10:no-filter-loaded")
+		for _, nf := range []*bloom.Filter{bloom.LoadFilter(nil), func() *bloom.Filter { f, _ := c10Filter(c, items); f.Unload(); return f }()} {
+			blk := wire.NewMsgBlock(&wire.BlockHeader{Version: 1})
+			for ti, b := range txs {
+				if nf.MatchTxAndUpdate(bchutil.NewTx(b.msg)) {
+					return fmt.Errorf("MatchTxAndUpdate(tx %d) = true on a filter that is not loaded", ti)
+				}
+				blk.AddTransaction(b.msg)
+			}
+			if R := bloom.GetMatchedIndices(bchutil.NewBlock(blk), nf); len(R) != 0 {
+				return fmt.Errorf("GetMatchedIndices reports %v with no filter loaded", R)
+			}
+			if _, idx := bloom.NewMerkleBlock(bchutil.NewBlock(blk), nf); len(idx) != 0 {
+				return fmt.Errorf("bloom.NewMerkleBlock reports matches %v with no filter loaded", idx)
+			}
+			if _, idx := merkleblock.NewMerkleBlockWithFilter(bchutil.NewBlock(blk), nf); len(idx) != 0 {
+				return fmt.Errorf("merkleblock.NewMerkleBlockWithFilter reports matches %v with no filter loaded", idx)
+			}
+			if nf.IsLoaded() {
+				return fmt.Errorf("matching against an unloaded filter loaded it")
+			}
+		}
+	}
+
 	// ---- block scan ----
 	perm := normPerm(c.Perm, len(txs))
 	blk := wire.NewMsgBlock(&wire.BlockHeader{Version: 1})
